@@ -521,6 +521,58 @@ CONTRACTS.append(Contract("wntr.network.base:Link.start_node/end_node setters", 
                           interpret_always=(_set_end,)))
 
 
+# ---------------------------------------------------------------------------- the setters through which an element starts / stops using a curve
+
+def _set_curve(el, attr, name):
+    setattr(el, attr, name)
+
+
+def _curve_setter_case(cls, attr, had_one):
+    """pump_curve_name / headloss_curve_name / vol_curve_name setter: afterwards the NEW curve records the element under exactly the record that the
+    removal of the element releases (LinkRegistry.__delitem__ / NodeRegistry.__delitem__: (name, LINK_TYPE) / (name, 'Tank') - the contracts above
+    assume that record), the old curve no longer does, and no empty entry stays behind"""
+    def build(cx):
+        L, old, new, other = cx.name("element"), cx.name("old_curve"), cx.name("new_curve"), cx.name("other")
+        names = [L, old, new, other]
+        for n in names:
+            _nonempty(cx, n)
+        cx.assume(z3.Distinct(*[cx.t(n) for n in names]))
+        w = World(cx)
+        rec = (L, "Tank") if cls is Tank else (L, LINK_TYPE[cls])
+        if cls is Tank:
+            el = SymObj(Tank, dict(_name=L, _vol_curve_name=(old if had_one else None), _curve_reg=w.curve.obj))
+        else:
+            el = _mk_link(cx, w, cls, L, cx.name("s"), cx.name("e"), None, old if had_one else None)
+            el.fields["_curve_coeffs"] = None
+        for r in w.regs:
+            r.assume_inv(*names)
+        cx.assume(w.curve.D(cx.t(old)), w.curve.D(cx.t(new)))
+        if had_one:
+            w.curve.assume_member(old, rec)
+        # RegInv: the new curve does not record the element yet
+        cx.assume(z3.Not(w.curve.MEM(cx.t(new), user_term(rec))))
+        cx.target(_set_curve, el, attr, new)
+
+        def post(out):
+            if not out.returned:
+                return []
+            posts = [("the_element_names_the_new_curve", el.fields["_" + attr] is new or (isinstance(el.fields["_" + attr], SV) and el.fields["_" + attr].t.eq(new.t))),
+                     ("new_curve_records_the_element_under_the_record_its_removal_releases", w.curve.member_after(new, rec)),
+                     ("new_curve_has_a_usage_entry", zb(w.curve.in_usage(new)))]
+            if had_one:
+                posts.append(("old_curve_no_longer_records_the_element", z3.Not(w.curve.member_after(old, rec))))
+                posts.append(("old_curve_entry_dropped_iff_it_became_empty", zb(w.curve.in_usage(old)) == z3.Not(w.curve.CARD(cx.t(old)) == 1)))
+            posts.append(("other_keys_untouched_in_every_registry", w.unchanged_at(other)))
+            return posts
+        cx.ensure(post)
+    return Case("%s.%s,had_a_curve=%s" % (cls.__name__, attr, had_one), build, crosscheck=False)
+
+
+CONTRACTS.append(Contract("wntr.network.elements:HeadPump.pump_curve_name/GPValve.headloss_curve_name/Tank.vol_curve_name setters", P,
+                          [_curve_setter_case(c, a, h) for c, a in ((HeadPump, "pump_curve_name"), (GPValve, "headloss_curve_name"), (Tank, "vol_curve_name")) for h in (True, False)],
+                          interpret_always=(_set_curve,)))
+
+
 # ---------------------------------------------------------------------------- get_links_for_node
 
 class _NodeRegView(NativeModel):
@@ -764,7 +816,7 @@ def _reginv_violations(wn):
             if len(users) == 0:
                 bad.append("%s usage keeps an empty entry for %r" % (regname, key))
             for (uname, utype) in users:
-                exists = (uname in links) if utype in ("Pipe", "Pump", "Valve") else (uname in nodes) if utype in ("Junction", "Tank", "Reservoir") else (uname in wn.source_name_list) if utype == "Source" else True
+                exists = (uname in links) if utype in ("Pipe", "Pump", "Valve") else (uname in nodes) if utype in ("Junction", "Tank", "Reservoir") else (uname in wn.source_name_list) if utype == "Source" else (uname in links or uname in nodes or uname in wn.source_name_list)
                 if not exists:
                     bad.append("%s usage of %r mentions the non-existing %s %r" % (regname, key, utype, uname))
     # referential integrity: whatever an existing element refers to exists, and the usage record of the referred object names the element
@@ -798,6 +850,11 @@ def _reginv_violations(wn):
             refers("pattern", (ln, t), pats, pusage, l.speed_pattern_name, (ln, "Pump"))
         if t == "HeadPump":
             refers("curve", (ln, t), curs, cusage, l.pump_curve_name, (ln, "Pump"))
+        if t == "GPValve" and l.headloss_curve_name is not None:
+            if l.headloss_curve_name not in curs:
+                bad.append("GPValve %s refers to the removed curve %r" % (ln, l.headloss_curve_name))
+            elif ln not in {u[0] for u in cusage.get(l.headloss_curve_name, set())}:
+                bad.append("curve %r is used by GPValve %s but its usage record does not say so (it could be removed)" % (l.headloss_curve_name, ln))
     for sn, src in wn.sources():
         refers("pattern", (sn, "Source"), pats, pusage, src.strength_timeseries.pattern_name, (sn, "Source"))
         if src.node_name not in nodes:
@@ -854,6 +911,7 @@ def _edit_histories(shard, nshards):
             wn.add_pattern("p2", [0.5])
             wn.add_curve("hc", "HEAD", [(0.1, 10.0)])
             wn.add_curve("vc", "VOLUME", [(0.0, 0.0), (5.0, 100.0)])
+            wn.add_curve("gc", "HEADLOSS", [(0.0, 0.0), (0.1, 2.0)])
             wn.add_reservoir("R", 10.0, "p2")
             hist, cnt = [], [0]
 
@@ -882,6 +940,8 @@ def _edit_histories(shard, nshards):
                                 wn.add_pump(fresh("U"), a, b, "HEAD", "hc", pattern=rng.choice([None, "p1"] if "p1" in wn.pattern_name_list else [None]))
                             else:
                                 wn.add_pump(fresh("U"), a, b, "POWER", 50.0, pattern=rng.choice([None, "p1"] if "p1" in wn.pattern_name_list else [None]))
+                        elif rng.random() < 0.3 and "gc" in wn.curve_name_list:
+                            wn.add_valve(fresh("V"), a, b, valve_type="GPV", initial_setting="gc")      # a general purpose valve uses its head loss curve
                         else:
                             wn.add_valve(fresh("V"), a, b, valve_type=rng.choice(["PRV", "PSV", "PBV", "TCV", "FCV"]), initial_setting=1.0)
                     elif op == "add_source" and nl:
